@@ -16,7 +16,7 @@ func init() {
 		NotDecided: "whether 'routes exist but every dial failed with another error' should read not-connected (the code answers not-found; recorded as observation O1).",
 		Run:        runC27})
 	register(&propDef{ID: "C28", Level: "other",
-		Decides:    "the route loader's decision list on every path: not-found (negative TTL) exactly under numNotFound == numLookup, lookup-failed (failed TTL) exactly under numError == numLookup, otherwise the non-nil routes with the positive TTL; counters are incremented under the fs.ErrNotExist / other-error cases of the switch over each job's error; jobs read RoutingKey(hostname, 1..NumRedundantLinks) and report an empty slot as the bare fs.ErrNotExist; failedTTL < negativeTTL < positiveTTL; the sort comparator, evaluated over local/remote valuations, puts a local route before a remote one and never a remote before a local.",
+		Decides:    "the route loader's decision list on every path: not-found (negative TTL) exactly where the not-found counter is known to equal the number of slots, lookup-failed (failed TTL) exactly where the error counter is, otherwise the non-nil routes with the positive TTL; the counters are identified by what they count (incremented where the job's error is known to be fs.ErrNotExist / known to be another non-nil error), not by name; jobs read RoutingKey(hostname, 1..NumRedundantLinks) and report an empty slot as the bare fs.ErrNotExist; failedTTL < negativeTTL < positiveTTL; the sort comparator, evaluated over local/remote valuations, puts a local route before a remote one and never a remote before a local.",
 		NotDecided: "the cache library's behaviour; sort.SliceStable's handling of a comparator that is not irreflexive on two local routes (harmless: both are local).",
 		Run:        runC28})
 	register(&propDef{ID: "C31", Level: "other",
@@ -24,7 +24,7 @@ func init() {
 		NotDecided: "SHA-256 / ed25519 themselves (trusted).",
 		Run:        runC31})
 	register(&propDef{ID: "C32", Level: "other",
-		Decides:    "issuance and renewal gates on every path: RenewCertificate issues only after the old certificate verified against the configured CA pool with ClientAuth usage, an identity was extracted, the version is not v1, the proof of work verified, the certificate key is ed25519 and equals the proof key; the renewed request keeps the old subject and uses the proof key; RequestCertificate builds the subject with MakeSubjectV2(id, sha256 of the proof key) computed in the proof's subject callback and certifies the proof key; ExtractCertificateIdentity takes the whole CN as the v2 token.",
+		Decides:    "issuance and renewal gates on every path: RenewCertificate issues only after the old certificate verified against the configured CA pool with ClientAuth usage, an identity was extracted, the version is not v1, the proof of work verified, the certificate key is ed25519 and equals the proof key; the renewed request keeps the old subject and uses the proof key; RequestCertificate builds the subject with MakeSubjectV2(id, sha256 of the proof key) computed in the proof's subject callback and certifies the proof key; ExtractCertificateIdentity takes the whole CN as the v2 token and the third CN part as the v1 token, and builds an identity only for a subject tag equal to a version constant (one literal per version under that tag's path facts, or one literal whose Version is the tag itself, decided by enumerating the tag over {v1, v2, other}).",
 		NotDecided: "x509 verification and certificate generation internals (trusted).",
 		Run:        runC32})
 	register(&propDef{ID: "C33", Level: "other",
